@@ -110,23 +110,27 @@ def composed_of(chars):
     return [c for c, d in _CANON if d <= cs and c not in cs]
 
 
-_ALPHA = {}
-
-
 def alphabet(name):
-    """the script's ranges plus every character canonically equivalent to a sequence of them (compositions under NFC
-    and presentation forms such as U+FB1D..FB4E for Hebrew): a font of the conservation search maps all of them, so
-    a composition the shaper makes becomes visible, and the texts draw from them too"""
-    if name in _ALPHA:
-        return list(_ALPHA[name])
+    """the assigned, visible characters of the script's ranges (also used by tools/scriptgen.py)"""
     out = []
     for a, b in SCRIPTS[name]:
         for cp in range(a, b + 1):
             if assigned(cp) and not is_di(cp) and not (0xFE00 <= cp <= 0xFE0F):
                 out.append(cp)
-    out += [c for c in composed_of(out) if assigned(c) and not is_di(c)]
-    _ALPHA[name] = out
-    return list(out)
+    return out
+
+
+_ALPHA = {}
+
+
+def alphabet_x(name):
+    """the script's ranges plus every character canonically equivalent to a sequence of them (compositions under NFC
+    and presentation forms such as U+FB1D..FB4E for Hebrew): a font of the conservation search maps all of them, so
+    a composition the shaper makes becomes visible, and the texts draw from them too"""
+    if name not in _ALPHA:
+        out = alphabet(name)
+        _ALPHA[name] = out + [c for c in composed_of(out) if assigned(c) and not is_di(c)]
+    return list(_ALPHA[name])
 
 
 def closure(cps):
@@ -178,7 +182,7 @@ def make_font(name, with_dotted_circle, with_space, vs_glyphs=True, uvs_bases=No
     (a glyph of its own standing for the pair) or a default entry (the base's nominal glyph stands for the pair).
     Returns the recipe, the cmap, the inverse map glyph -> character (or tuple of characters) and the set of
     (base, selector) pairs with a default entry."""
-    cps = closure(alphabet(name))
+    cps = closure(alphabet_x(name))
     extra = ([DOTTED_CIRCLE] if with_dotted_circle else []) + ([0x20] if with_space else [])
     # DI characters used by the REMOVE stream get glyphs too
     extra += [0x200C, 0x200D, 0x00AD, 0x034F, 0x2060]
@@ -404,7 +408,7 @@ def conservation_search(ctx, shim, r, per_script, scripts=None):
     groups, meta = [], []
     names = scripts or sorted(SCRIPTS)
     for si, name in enumerate(names):
-        alpha = alphabet(name)
+        alpha = alphabet_x(name)
         marks = [c for c in alpha if unicodedata.category(chr(c)).startswith("M")]
         edge = sorted(set(boundaries(alpha)) | set(source_boundaries(name, alpha)))
         src_edge = source_boundaries(name, alpha, with_unicode=False) or edge
@@ -540,7 +544,7 @@ def pair_search(ctx, shim, r, cap, U9):
     composition and presentation form of the script — alone and with a mark of a lower class in between"""
     groups, meta = [], []
     for si, name in enumerate(sorted(SHAPER_SOURCES)):
-        alpha = alphabet(name)
+        alpha = alphabet_x(name)
         marks = [c for c in alpha if unicodedata.category(chr(c)).startswith("M")]
         mset = set(marks)
         letters = [c for c in alpha if c not in mset and unicodedata.category(chr(c))[0] == "L"]
